@@ -40,6 +40,9 @@ EXPLANATION = (
   " (ITEM-source) an object built once per item of an inner loop is filled only with values that derive from that item or do not vary with the loops, never with a value of the enclosing container standing where the item's own belongs;"
   ' (FIND-key) every parameter of _get_region_from_model that shapes a newly created region is compared by the search for a reusable one, so a region is reused only when origin, extent and displayAlign all agree;'
   ' (FIN-resume) the registered codec error handler resumes decoding exactly at the end of the undecodable range, so an unassigned byte costs one replacement character and nothing else;'
+  ' (DIV-parsed) no count that the STL reader parses from the file or takes from its caller (number of TTI blocks, maximum number of rows) is used as a divisor unless it has been made positive after it was set, so a count of 0 cannot raise ZeroDivisionError;'
+  ' (LOOP-break) no loop over the items of a collection is left by a branch that does nothing but `break` on a test about the item (end-of-input sentinels, flags set in the loop body and searches whose variable is read afterwards excepted): an item that is to be skipped does not end the processing of the items after it;'
+  ' (ACC-raw) the text field of a TTI block is read only to extend the text accumulated over extension blocks; everything computed from the text (line count, region height, spans) reads the accumulated field;'
 )
 RULE_TEXT = "per table entry / byte value (aggregated per classifier) / struct format / call site"
 UNDECIDED = ["region geometry from VP/JC and row counts", "cumulative-set accumulation behaviour", "the text-field state machine as a whole (span boundaries, space insertion)",
@@ -549,8 +552,11 @@ def run(ctx):
   check_iso6937_dispatch(ctx)
   check_newline_reset(ctx)
   check_codec_error_handlers(ctx)
+  nar = shape.check_raw_part_reads(ctx, [m_ for m_ in ix.cls("ttconv.stl.datafile:DataFile").methods.values()])
+  ctx.floor("ACC-raw", "accumulators fed from a block field", nar, 1)
   common.check_item_handlers(ctx, ["ttconv.stl.reader", "ttconv.stl.datafile", "ttconv.stl.tf", "ttconv.stl.iso6937"])
   from . import c12 as _c12
   _c12.check_parse_rate(ctx)
   _c12.check_drop_count(ctx)
+  common.check_parsed_divisors(ctx, ["ttconv.stl.reader", "ttconv.stl.datafile", "ttconv.stl.tf"], floor=3)
   common.check_history_independence(ctx, [n for n in ctx.ix.modules if n.startswith("ttconv.stl")] + ["ttconv.time_code"])
